@@ -123,7 +123,7 @@ impl Property for C08 {
 
     /// Decoy campaign (deterministic, sharded): the known finding lives here and only here.
     fn fixed_work(&self, env: &mut Env, shard: u32, shards: u32) -> Result<(), CaseError> {
-        let variants: u32 = if env.tier == Tier::Quick { 64 } else { 1024 };
+        let variants: u32 = if env.tier == Tier::Quick { 96 } else { 1024 };
         let mut first_known: Option<Failure> = None;
         for variant in 0..variants {
             if variant % shards != shard {
@@ -146,9 +146,27 @@ impl Property for C08 {
             let suffix_len = (splitmix(&mut rng) % 200) as usize;
             let decoy_entry = craft_entry(4, DECOY_POSITION, queue.as_bytes(), &craft_batch(&[(DECOY_POSITION, DECOY_PAYLOAD.to_vec())]));
             let embedded = craft_frame(1, &decoy_entry);
-            let mut host: Vec<u8> = crate::util::fill(splitmix(&mut rng), prefix_len, 0);
-            host.extend_from_slice(&embedded);
-            host.extend_from_slice(&crate::util::fill(splitmix(&mut rng), suffix_len, 0));
+            // Mode B (one variant in three): the host record is split over two frames exactly where the raw image of
+            // the decoy ENTRY starts, and the type byte of its Last frame is overwritten with Full. The frame CRC covers
+            // the type byte, so the unchanged code drops the frame; a phantom here is NOT the known finding.
+            let retype_mode = variant % 3 == 2;
+            let mut host: Vec<u8>;
+            if retype_mode {
+                let cursor = exec.driver.global_cursor() as usize % crate::util::BLOCK;
+                let remaining = crate::util::BLOCK - cursor;
+                let fixed = 11 + queue.len() + 12;
+                if remaining < FRAME_HEADER + fixed + 1 {
+                    env.class("decoy:retype-alignment-skipped");
+                    continue;
+                }
+                let filler_len = remaining - FRAME_HEADER - fixed;
+                host = crate::util::fill(splitmix(&mut rng), filler_len, 0);
+                host.extend_from_slice(&decoy_entry);
+            } else {
+                host = crate::util::fill(splitmix(&mut rng), prefix_len, 0);
+                host.extend_from_slice(&embedded);
+                host.extend_from_slice(&crate::util::fill(splitmix(&mut rng), suffix_len, 0));
+            }
             let host_pos = warmup;
             let frames_before = exec.driver.tracer.frames.len();
             {
@@ -165,8 +183,8 @@ impl Property for C08 {
             exec.driver.close()?;
             let image = Image::from_dir(&dir).map_err(|err| CaseError::Engine(format!("read dir: {err}")))?;
             let host_frames: Vec<_> = exec.driver.tracer.frames[frames_before..].iter().filter(|frame| frame.op == 1000).cloned().collect();
-            if host_frames.len() != 1 {
-                // the host entry was split over several frames: not the shape this campaign aims at
+            if host_frames.len() != if retype_mode { 2 } else { 1 } {
+                // the host entry was not laid out the way this campaign aims at
                 env.class("decoy:host-split-skipped");
                 continue;
             }
@@ -174,7 +192,17 @@ impl Property for C08 {
             // offset of the embedded frame inside the host frame's payload
             let embedded_off = 11 + queue.len() + 12 + prefix_len;
             let new_len = embedded_off as u16;
-            let damage = CDamage::Write { name: frame.name.clone(), off: frame.off + 4, hex: to_hex(&new_len.to_le_bytes()) };
+            let damage = if retype_mode {
+                let last = &host_frames[1];
+                if last.payload_len != decoy_entry.len() || last.frame_type != 4 {
+                    env.class("decoy:host-split-skipped");
+                    continue;
+                }
+                env.class("decoy:retype-image-opened");
+                CDamage::Write { name: last.name.clone(), off: last.off + 6, hex: to_hex(&[1u8]) }
+            } else {
+                CDamage::Write { name: frame.name.clone(), off: frame.off + 4, hex: to_hex(&new_len.to_le_bytes()) }
+            };
             let mut damaged = image.clone();
             apply(&mut damaged, &mut Extras::default(), &damage);
             let crash_dir = env.scratch.fresh("c08-decoy-open");
@@ -191,9 +219,14 @@ impl Property for C08 {
             };
             if let Err((msg, name, pos, bytes)) = check_no_phantom(&set, &state) {
                 let is_decoy = name == queue && pos == DECOY_POSITION && &bytes[..] == DECOY_PAYLOAD;
+                let is_decoy = is_decoy && !retype_mode;
                 let signature = if is_decoy { "decoy-resync" } else { "phantom-record" };
                 let failure = Failure {
-                    msg: format!("decoy campaign variant {variant}: host record embeds a CRC-valid frame at payload offset {prefix_len}; overwriting the 2 len bytes of the host frame ({}@{}) with {new_len}: {msg}", frame.name, frame.off + 4),
+                    msg: if retype_mode {
+                        format!("decoy campaign variant {variant}: host record's Last frame is the raw image of an entry; overwriting its type byte with Full: {msg}")
+                    } else {
+                        format!("decoy campaign variant {variant}: host record embeds a CRC-valid frame at payload offset {prefix_len}; overwriting the 2 len bytes of the host frame ({}@{}) with {new_len}: {msg}", frame.name, frame.off + 4)
+                    },
                     signature: signature.to_string(),
                     policy: Policy::DEFAULT,
                     ops: exec.cops.clone(),
